@@ -52,6 +52,11 @@ def run(ctx):
         r = G.gen_select_req(rng)
         r["op"] = "graph.select"
         reqs.append(r)
+    # boundary sizes: node counts around powers of two (sparse graphs)
+    for size in (63, 64, 65, 127, 128, 129, 255, 256, 257):
+        r = G.gen_select_req(rng, size)
+        r["op"] = "graph.select"
+        reqs.append(r)
     # targeted: incompatible dependency reached only through an alias; incompatible match that is also a dependency
     base = {"op": "graph.select", "cur": "", "tags": [], "exclude": [], "type": "all", "platform": "linux/amd64", "all_platforms": False}
     N = lambda pkg, name, target=True, plats=(): {"pkg": pkg, "name": name, "target": target, "tags": [], "platforms": list(plats), "bin": False}
@@ -120,6 +125,23 @@ def run(ctx):
                     nontrivial.add(key)
                     if any(not r["nodes"][i]["target"] for i in extra):
                         outcomes["through-alias"] += 1
+    # determinism: the Go node map is iterated in a different order on every call; the outcome must not depend on it.
+    # Re-run the requests with a platform error or several overlapping start nodes a few more times.
+    sensitive = [i for i, (r, a) in enumerate(zip(reqs, impl)) if a.get("err") == "platform" or len(a.get("selected", [])) >= 4][:150 if quick else 1500]
+    repeats = 4
+    rerun = ctx.impl([reqs[i] for i in sensitive for _ in range(repeats)])
+    nondet = 0
+    for k, i in enumerate(sensitive):
+        first = {x: impl[i].get(x) for x in ("ok", "err", "selected", "count", "skipped")}
+        for j in range(repeats):
+            again = rerun[k * repeats + j]
+            if {x: again.get(x) for x in ("ok", "err", "selected", "count", "skipped")} != first:
+                nondet += 1
+                ctx.violation("the same selection gives different outcomes on different runs (depends on the map iteration order)",
+                              {"kind": "oracle", "oracle": "determinism under map iteration order", "request": reqs[i], "first": impl[i], "again": again},
+                              signature="selection-nondeterministic")
+    cov["determinism_reruns"] = len(sensitive) * repeats
+    cov["evaluations"] += len(sensitive) * repeats
     cov["outcomes"] = outcomes
     cov["oracle_reference_requests"] = ref_checked
     ctx.sample({"request": {k: reqs[0][k] for k in ("edges", "cur", "patterns", "tags", "exclude", "type", "platform", "all_platforms")},
